@@ -329,11 +329,23 @@ class Unit:
                     elif op == 'AFTER-LOOP':
                         ft.insert_after_loop(int(rest.strip()), text)
                     elif op in ('AFTER', 'BEFORE'):
-                        m = re.match(r'`(.*)`(?:\s+#(\d+))?\s*$', rest)
+                        m = re.match(r'`(.*)`(?:\s+#(\d+|\*))?\s*$', rest)
                         if not m:
                             raise ExtractError('bad anchor directive: %s' % head)
-                        occ = int(m.group(2) or 1)
-                        (ft.insert_after if op == 'AFTER' else ft.insert_before)(m.group(1), text, occ)
+                        if m.group(2) == '*':
+                            # every occurrence (at least one): a jump statement the code gains later gets the same hint
+                            k = 1
+                            while True:
+                                try:
+                                    (ft.insert_after if op == 'AFTER' else ft.insert_before)(m.group(1), text, k)
+                                except ExtractError:
+                                    if k == 1:
+                                        raise
+                                    break
+                                k += 1
+                        else:
+                            occ = int(m.group(2) or 1)
+                            (ft.insert_after if op == 'AFTER' else ft.insert_before)(m.group(1), text, occ)
                     elif op == 'CLOSURE':
                         ft.annotate_closure(int(rest.strip()), text.strip())
                         annotated_closures += 1
